@@ -20,7 +20,8 @@ func init() {
 		Explanation: "Race freedom over all schedules is not decidable here; three disciplines every race-free version of this code must obey are: " +
 			"(a) atomic consistency — a field accessed through sync/atomic anywhere is never read or written plainly elsewhere (a plain store to a struct containing such a field counts), except on objects that are provably unpublished (constructors, fresh literals); " +
 			"(b) guarded-by — every access to the `internal` container of a mutex-carrying struct holds that struct's lock (read or write mode as needed), and fields written under the trie lock are not read lock-free; " +
-			"(c) publication discipline — a plain field of Client that is written by code reachable from the per-connection packet handlers (after the client was published in Clients) must not be read or written by code reachable from the housekeeping event loop (another goroutine), and vice versa, unless both sides hold the client's lock.",
+			"(c) publication discipline — a plain field of Client that is written by code reachable from the per-connection packet handlers (after the client was published in Clients) must not be read or written by code reachable from the housekeeping event loop (another goroutine), and vice versa, unless both sides hold the client's lock; the expiry sweep reads plain Client property fields only after it observed a non-zero (atomic) stop time; " +
+			"(d) no method of a lock-protected container lets its `internal` map, or a map/slice stored in it, escape (returned, stored into a result, boxed): accessors copy.",
 		NotDecided: []string{"races that obey all three disciplines", "hooks/auth.Ledger (outside the property's 'broker memory')", "accesses from the embedding application's own goroutines"},
 		Run:        runC33,
 	})
@@ -283,6 +284,135 @@ func runC33(c *Ctx) {
 	// (c) publication discipline for Client fields
 	c.prePublication()
 	c.clientPublication()
+	c.stoppedBeforeRead()
+	c.internalsStayInside()
+}
+
+// stoppedBeforeRead: the session-expiry sweep on the event-loop goroutine reads plain Client property fields; the
+// only thing that orders those reads after the connection goroutine's writes is the atomic stop time, so every such
+// read is reached only on the edge where StopTime() != 0 was observed.
+func (c *Ctx) stoppedBeforeRead() {
+	f := c.fn("mqtt", "(*Server).clearExpiredClients")
+	if f == nil {
+		return
+	}
+	n := 0
+	for _, ins := range instrs(f) {
+		u, ok := ins.(*ssa.UnOp)
+		if !ok || u.Op != token.MUL {
+			continue
+		}
+		p, ok := clientPath(u.X)
+		if !ok || !strings.HasPrefix(p, "Properties.") {
+			continue
+		}
+		n++
+		c.ob("C33.c publication-discipline", fmt.Sprintf("(*mqtt.Server).clearExpiredClients reads Client.%s only after it observed a non-zero stop time", p), c.pos(u.Pos()),
+			dominatedByFact(u, textHas("StopTime", "== 0"), false),
+			"for a client that is still connected nothing orders this plain read after processDisconnect / SendConnack writing the field on the connection goroutine")
+	}
+	c.floor("C33.c plain Client property reads in clearExpiredClients", n, 3)
+}
+
+// internalsStayInside: the maps a lock-protected container keeps (the `internal` map and the maps or slices stored
+// in it) never leave its methods: accessors hand out copies. A map that escapes is iterated by the caller after the
+// lock was released while Add/Delete write it.
+func (c *Ctx) internalsStayInside() {
+	n := 0
+	for _, fn := range c.ModFns {
+		if fn.Signature.Recv() == nil || fnPkgPath(fn) != modPath {
+			continue
+		}
+		pt, ok := fn.Signature.Recv().Type().Underlying().(*types.Pointer)
+		if !ok {
+			continue
+		}
+		st, ok := pt.Elem().Underlying().(*types.Struct)
+		if !ok {
+			continue
+		}
+		hasInternal, hasLock := false, false
+		for i := 0; i < st.NumFields(); i++ {
+			if _, isMap := st.Field(i).Type().Underlying().(*types.Map); isMap && st.Field(i).Name() == "internal" {
+				hasInternal = true
+			}
+			if strings.Contains(st.Field(i).Type().String(), "sync.RWMutex") || strings.Contains(st.Field(i).Type().String(), "sync.Mutex") {
+				hasLock = true
+			}
+		}
+		if !hasInternal || !hasLock {
+			continue
+		}
+		isRef := func(t types.Type) bool {
+			switch t.Underlying().(type) {
+			case *types.Map, *types.Slice:
+				return true
+			}
+			return false
+		}
+		// reference-typed values that denote container state
+		var inner []ssa.Value
+		for _, ins := range instrs(fn) {
+			v, ok := ins.(ssa.Value)
+			if !ok || !isRef(v.Type()) {
+				continue
+			}
+			switch x := v.(type) {
+			case *ssa.UnOp:
+				if fa, ok := x.X.(*ssa.FieldAddr); ok && x.Op == token.MUL && fieldName(fa.X.Type(), fa.Field) == "internal" {
+					inner = append(inner, v)
+				}
+			case *ssa.Lookup:
+				if strings.HasSuffix(describe(x.X), ".internal") {
+					inner = append(inner, v)
+				}
+			case *ssa.Extract:
+				if strings.Contains(describe(x.Tuple), ".internal") {
+					if _, isNext := x.Tuple.(*ssa.Next); isNext {
+						inner = append(inner, v)
+					}
+					if _, isLk := x.Tuple.(*ssa.Lookup); isLk {
+						inner = append(inner, v)
+					}
+				}
+			}
+		}
+		for _, v := range inner {
+			for _, ref := range *v.Referrers() {
+				esc := ""
+				switch r := ref.(type) {
+				case *ssa.Return:
+					esc = "is returned"
+				case *ssa.MapUpdate:
+					if r.Value == v && !strings.Contains(describe(r.Map), ".internal") {
+						esc = "is stored into " + describe(r.Map)
+					}
+				case *ssa.Store:
+					if r.Val == v && !strings.Contains(describe(r.Addr), ".internal") {
+						esc = "is stored to " + describe(r.Addr)
+					}
+				case *ssa.MakeInterface:
+					esc = "is boxed into an interface"
+				case *ssa.Phi:
+					for _, rr := range *r.Referrers() {
+						if _, isRet := rr.(*ssa.Return); isRet {
+							esc = "is returned"
+						}
+					}
+				}
+				if esc == "" {
+					continue
+				}
+				n++
+				c.ob("C33.d internals-stay-inside", fmt.Sprintf("%s: %s (%s, container state) does not leave the method", fname(fn), describe(v), shorten(v.Type().String())), c.pos(ref.Pos()), false,
+					"the value "+esc+" and is then read without the container's lock while Add/Delete write the same map")
+			}
+		}
+		c.fnsSeen[fn] = true
+	}
+	if n == 0 {
+		c.ob("C33.d internals-stay-inside", "no method of a lock-protected container lets its internal map, or a map/slice stored in it, escape (accessors copy)", "", true, "")
+	}
 }
 
 // calledOnlyLocked: fn is a helper whose every module call site executes with some lock held, or sits in a
